@@ -102,6 +102,31 @@ func init() {
 				flushCorr()
 			}
 		}
+		// the stages behind the parser (expansion, sorting, de-duplication, matching): valid expressions against
+		// generated allowed lists (repeated entries, re-spelled entries, unrelated entries, unsatisfied expressions)
+		for i := 0; i < scale(2500, 40000); i++ {
+			c := genTreeCase(4, 6)
+			lists := [][]string{c.allowed, append(append([]string{}, c.allowed...), c.allowed...), {c.allowed[0], c.allowed[0]},
+				{c.allowed[0], strings.ToLower(c.allowed[0]), "MIT", "mit"}}
+			for _, l := range lists {
+				res.Evaluations++
+				count("semantic_calls")
+				if r := implSat(c.text, l); r.panicv != nil {
+					k := &kase{Expr: c.text, ExprHex: hx(c.text), Allowed: l}
+					f := failure{Stream: "oracle", What: fmt.Sprintf("Satisfies panicked: %v", r.panicv), Case: k, Impl: "PANIC", Expected: "a result or an error"}
+					if wantShrink() {
+						f.Case = shrinkSat(k, func(k *kase) bool { return implSat(k.Expr, k.Allowed).panicv != nil })
+					}
+					fail(f)
+				}
+				if v := implVal(l); v.panicv != nil {
+					fail(failure{Stream: "oracle", What: fmt.Sprintf("ValidateLicenses panicked: %v", v.panicv), Case: &kase{Allowed: l}, Impl: "PANIC"})
+				}
+			}
+			if e := implExt(c.text); e.panicv != nil {
+				fail(failure{Stream: "oracle", What: fmt.Sprintf("ExtractLicenses panicked: %v", e.panicv), Case: &kase{Expr: c.text, ExprHex: hx(c.text)}, Impl: "PANIC"})
+			}
+		}
 		// slices
 		for _, l := range [][]string{nil, {}, {""}, {"", ""}, {"MIT", ""}, {"(", "MIT"}, {"MIT AND ISC"}} {
 			res.Evaluations++
@@ -151,6 +176,35 @@ func init() {
 		}
 		return c03Probe(k.Expr, false)
 	}
+}
+
+// shrinkSat: drop allowed entries, then shrink the expression text, while `bad` holds
+func shrinkSat(k *kase, bad func(*kase) bool) *kase {
+	cur := *k
+	for changed := true; changed; {
+		changed = false
+		for i := range cur.Allowed {
+			if len(cur.Allowed) <= 1 {
+				break
+			}
+			l := append(append([]string{}, cur.Allowed[:i]...), cur.Allowed[i+1:]...)
+			c := cur
+			c.Allowed = l
+			if bad(&c) {
+				cur, changed = c, true
+				break
+			}
+		}
+	}
+	for _, e := range []string{"MIT", "ISC", "Apache-2.0"} {
+		c := cur
+		c.Expr, c.ExprHex = e, hx(e)
+		if bad(&c) {
+			cur = c
+			break
+		}
+	}
+	return &cur
 }
 
 func c03ProbeQuiet(s string) bool {
@@ -314,6 +368,18 @@ func init() {
 			}
 			if f := c04String(s, compound); f != nil {
 				fail(*f)
+			}
+			if compound >= 0 && i%3 == 0 {
+				// the same text with its letter case folded, right after the original (operators and ref prefixes
+				// are case-sensitive, so most of these are invalid; all entry points must still agree)
+				for _, v := range []string{strings.ToLower(s), strings.ToUpper(s)} {
+					if v != s {
+						count("case_folded_echo")
+						if f := c04String(v, -1); f != nil {
+							fail(*f)
+						}
+					}
+				}
 			}
 			if i%997 == 0 {
 				sample(show(s))
@@ -556,6 +622,80 @@ func c05Check(s []sym, tight bool) *failure {
 	return nil
 }
 
+func foldIn(list []string, w string) bool { _, ok := canonicalIn(list, w); return ok }
+
+// specWord: (is a license id, is an exception id) according to the property text
+func specWord(w string) (lic, exc bool) {
+	for _, c := range []byte(w) {
+		if !isIDByte(c) {
+			return false, false
+		}
+	}
+	if w == "" {
+		return false, false
+	}
+	if foldIn(tblActive, w) || foldIn(tblDeprecated, w) {
+		return true, false
+	}
+	if foldIn(tblExceptions, w) {
+		return false, true
+	}
+	for _, suf := range []string{"-only", "-or-later"} {
+		if strings.HasSuffix(w, suf) {
+			b := strings.TrimSuffix(w, suf)
+			if foldIn(tblActive, b) {
+				return true, false
+			}
+			if foldIn(tblExceptions, b) {
+				return false, true
+			}
+		}
+	}
+	return false, false
+}
+
+// c05Word: the word alone, after WITH, and followed by '+', against the reference classification
+func c05Word(w string) *failure {
+	for _, c := range []byte(w) {
+		if !isIDByte(c) {
+			return nil // not a single word ('+' etc. belong to the grammar level)
+		}
+	}
+	lic, exc := specWord(w)
+	if strings.HasPrefix(w, "LicenseRef-") || strings.HasPrefix(w, "DocumentRef-") || strings.HasPrefix(w, "WITH") || strings.HasPrefix(w, "AND") || strings.HasPrefix(w, "OR") {
+		return nil // not a plain word for the tokeniser (grammar level)
+	}
+	type probe struct {
+		text string
+		want bool
+		what string
+	}
+	probes := []probe{
+		{w, lic, "a word is accepted as a one-term expression iff it is a license id (listed, or an active id with one documented suffix)"},
+		{"MIT WITH " + w, exc, "a word is accepted after WITH iff it is an exception id"},
+		{"ISC AND (" + w + ")", lic, "a word is accepted as an operand iff it is a license id"},
+	}
+	if strings.HasSuffix(w, "-or-later") && exc {
+		// an exception id with -or-later is rewritten to `exc +`, which no grammar rule accepts
+		probes[1].want = false
+	}
+	for _, p := range probes {
+		res.Evaluations++
+		count("word_probes")
+		got := implVal([]string{p.text})
+		acc := got.panicv == nil && got.ok
+		k := &kase{Expr: p.text, ExprHex: hx(p.text), Extra: map[string]string{"word": hx(w)}}
+		correspondNorm("P "+hx(p.text), map[bool]string{true: "ok", false: "err"}[acc], "accept/reject: model parse vs ValidateLicenses", k, okErr)
+		if p.want {
+			nontrivial(p.text)
+		}
+		if acc != p.want {
+			return &failure{Stream: "oracle", What: p.what, Case: k, Impl: fmt.Sprint(acc), Expected: fmt.Sprint(p.want)}
+		}
+	}
+	return nil
+}
+
 func symString(s []sym) string {
 	o := make([]string, len(s))
 	for i, x := range s {
@@ -647,9 +787,39 @@ func init() {
 				flushCorr()
 			}
 		}
+		// lexical level: which WORDS are license ids / exception ids.  Reference written from the property text:
+		// a word is a license id iff it is on the active or deprecated list (any letter case) or is an active id carrying
+		// exactly one documented suffix; an exception id likewise over the exception list.
+		ids := append(append(append([]string{}, tblActive...), tblDeprecated...), tblExceptions...)
+		nIDs := scale(220, len(ids))
+		for i := 0; i < nIDs; i++ {
+			id := ids[(i*7919+int(rng.Int31n(3)))%len(ids)]
+			if thorough() {
+				id = ids[i]
+			}
+			if strings.HasSuffix(id, "+") {
+				continue
+			}
+			words := []string{id, strings.ToLower(id), strings.ToUpper(id)}
+			for _, suf := range suffixExperiments {
+				words = append(words, id+suf)
+			}
+			words = append(words, strings.ToLower(id)+"-only", strings.ToUpper(id)+"-or-later", id[:len(id)-1], id+"x")
+			for _, w := range words {
+				if f := c05Word(w); f != nil {
+					fail(*f)
+				}
+			}
+			if len(corrQ) > 100000 {
+				flushCorr()
+			}
+		}
 		res.Exhaustive = false
 	}
 	replays["C05"] = func(k *kase) *failure {
+		if k.Extra != nil && k.Extra["word"] != "" {
+			return c05Word(unhx(k.Extra["word"]))
+		}
 		if k.Extra == nil || k.Extra["syms"] == "" {
 			return nil
 		}
